@@ -25,6 +25,7 @@ func main() {
 		timeout  = flag.Int("timeout", 0, "per-obligation solver timeout in seconds")
 		noReplay = flag.Bool("noreplay", false, "skip replay of counterexamples")
 		replayF  = flag.String("replay", "", "re-run a replay file")
+		noEvid   = flag.Bool("noevidence", false, "do not write evidence or replay files (scratch runs of the must-fail corpus)")
 	)
 	flag.Parse()
 	// type aliases (type Box = bo.Box) are resolved to their targets by go/types
@@ -118,7 +119,7 @@ func main() {
 		}
 	}
 	rep := &report{eng: eng, results: results, bounded: bounded, tier: *tier, want: want, verbose: *verbose, lockMode: *lockMode,
-		noReplay: *noReplay, start: start, genSecs: genSecs}
+		noReplay: *noReplay || *noEvid, noEvidence: *noEvid, start: start, genSecs: genSecs}
 	code := rep.finish()
 	os.RemoveAll(tmp)
 	os.Exit(code)
